@@ -249,6 +249,22 @@ def probes():
     P['check_multisig'] = (isa.push(sig) + isa.push(PK) + O('CHECK_MULTISIG')
                            + b'\x00\x01\x01' + out(), [b'o'],
                            [('plugin', plug)])
+    # quorums that need several (signature, key) attempts: still ONE run
+    s2, s3 = bytes(range(40, 72)), bytes(range(90, 122))
+    pk2, pk3 = sigmsg.pubkey(s2), sigmsg.pubkey(s3)
+    sg2 = sigmsg.sign(s2, sigmsg.message(FIELDS, 0))
+    sg3 = sigmsg.sign(s3, sigmsg.message(FIELDS, 0))
+    P['check_multisig_2of3'] = (
+        isa.push(sig) + isa.push(sg3) + isa.push(PK) + isa.push(pk2)
+        + isa.push(pk3) + O('CHECK_MULTISIG') + b'\x00\x02\x03' + out(),
+        [b'o'], [('plugin', plug), ('no-plugin', {})])
+    P['check_multisig_2of2_verify'] = (
+        isa.push(sg2) + isa.push(sig) + isa.push(PK) + isa.push(pk2)
+        + O('CHECK_MULTISIG_VERIFY') + b'\x00\x02\x02', [],
+        [('plugin', plug)])
+    P['check_multisig_0of1'] = (
+        isa.push(PK) + O('CHECK_MULTISIG') + b'\x00\x00\x01' + out(),
+        [b'o'], [('plugin', plug)])
     P['check_multisig_verify'] = (isa.push(sig) + isa.push(PK)
                                   + O('CHECK_MULTISIG_VERIFY')
                                   + b'\x00\x01\x01', [], [('plugin', plug)])
@@ -319,10 +335,12 @@ def spec_effect(pname, label, kw):
     elif pname in ('get_message', 'check_sig', 'check_sig_verify',
                    'check_multisig', 'check_multisig_verify',
                    'taproot_keypath', 'get_message_f3', 'check_sig_f3',
-                   'check_multisig_f3'):
+                   'check_multisig_f3', 'check_multisig_2of3',
+                   'check_multisig_2of2_verify', 'check_multisig_0of1'):
         e['sig_ext'] = 1 if has_plugin else 0
         if pname in ('check_sig', 'check_multisig', 'taproot_keypath',
-                     'check_sig_f3', 'check_multisig_f3'):
+                     'check_sig_f3', 'check_multisig_f3',
+                     'check_multisig_2of3', 'check_multisig_0of1'):
             e['o'] = b'\xff' if pname != 'taproot_keypath' else None
     elif pname == 'check_transfer':
         e['o'] = b'\xff'
